@@ -123,6 +123,7 @@ func RunSeq(p Params) *Result {
 	pools := GenPools(r.Fork(2), 3)
 	ops := GenOps(r.Fork(3), cfg, pools, prof)
 	w := simrt.NewWorld(simrt.Mix(p.Seed, 12))
+	w.Drift = []int{0, 0, 40}[r.Fork(13).Intn(3)] // in a third of the runs the flusher may wake inside a call of the client
 	if p.Sched != nil {
 		w.Sched = *p.Sched
 	}
@@ -146,7 +147,7 @@ func RunSeq(p Params) *Result {
 	s.Run()
 	if s.V != nil && p.Extra["fslog"] == 1 {
 		n := len(w.FS.Log)
-		for i := n - 14; i < n; i++ {
+		for i := n - 40; i < n; i++ {
 			if i >= 0 {
 				e := w.FS.Log[i]
 				s.V.Msg += fmt.Sprintf("\n   fs#%d task=%d %s %s %s", e.Seq, e.Task, e.Kind, e.Path, e.Path2)
